@@ -84,7 +84,11 @@ def exact_family(name, reg0, ids, seeds, st):
         got = plain_tok_str(r.f[0].t) if r.idx == 0 else "ERR"
         case = {"op": "rust_example", "reg": regdsl.encode(reg0).hex(), "set": st.replay(), "id": str(i), "seed": str(seed), "nseeds": "1"}
         return {"outcome": "exact", "violations": [], "validate": dict(case, expect={"example": got})}
-    return Family(name, mk, run, target_prefixes=16, setup=setup)
+    def on_panic(eng, ctx, msg):
+        i, seed = ctx
+        return {"outcome": "panic", "violations": [{"what": "rust example generation panics / does not terminate for id %d, seed %d: %s" % (i, seed, msg), "kind": "panic",
+                                                    "case": {"op": "rust_example", "reg": regdsl.encode(reg0).hex(), "set": st.replay(), "id": str(i), "seed": str(seed), "nseeds": "1"}}]}
+    return Family(name, mk, run, target_prefixes=16, setup=setup, on_panic=on_panic)
 
 def families(eng, tier, seed):
     C = corpus(); fams = []; limit = 60 if tier == "quick" else 2000; rnd = random.Random(seed)
@@ -114,7 +118,7 @@ def confirm(v, real):
     return False
 def classify(v):
     w = v["what"]
-    if v["kind"] != "lockstep": return v["kind"]
+    if v.get("kind") != "lockstep": return v.get("kind", "other")
     for k, name in (("does not carry the primitive's type u16", "u16-literal-is-ident-n"), ("marker field is called", "marker-field-name"), ("field values, the generated item has", "marker-arity"),
                     ("is a parenthesised expression, not a 1-tuple", "one-tuple-without-comma"), ("does not parse", "parse"), ("path", "path"), ("Compact(", "compact-wrapping"), ("literal", "literal"), ("elements for an array", "array-arity")):
         if k in w: return name
